@@ -306,6 +306,33 @@ def while_another_thread_checks(out):
 
         f(np.zeros(3, np.float32))
 
+    # ... and in THIS thread after checks that were aborted by an exception and caught (a PyTree whose leaf type raises while
+    # the tree is being flattened, a registered node whose flatten raises): the table is what it was
+    class Exploding:
+        pass
+
+    def boom(_):
+        raise RuntimeError("flatten")
+
+    try:
+        jtu.register_pytree_node(Exploding, boom, lambda aux, ch: Exploding())
+    except ValueError:
+        pass
+    aborted = []
+    for what, thunk in (("leaf type raises", lambda: isinstance([1.0, 2.0], PyTree[Float])), ("flatten raises", lambda: isinstance([Exploding()], PyTree[int])),
+                        ("leaf type raises, structured", lambda: isinstance({"k": 1.0}, PyTree[Float, "T"]))):
+        try:
+            thunk()
+            aborted.append(what + ": returned")
+        except BaseException as e:  # noqa: BLE001
+            aborted.append(what + ": " + type(e).__name__)
+        got = verdicts()
+        out.case(("after-aborted-check", what), True, sample={"aborted": aborted[-1], "verdicts": got})
+        if got != want:
+            k = next(i for i, (a, b) in enumerate(zip(got, want)) if a != b)
+            out.violation("after-aborted-check", f"{rows[k][0]}: after a PyTree check that was aborted ({aborted[-1]}, caught) the check answers {got[k]}, the category says {want[k]} "
+                          f"(all rows: {got}, required {want})", {"while_another_thread": "after-aborted"})
+            return
     for wname, work in (("inside the flattening of a PyTree", parked_in_flatten), ("inside a decorated call", parked_in_call)):
         gate_in.clear()
         gate_go.clear()
